@@ -424,6 +424,9 @@ class Adjustments:
         elif self.trusted_proxy_count is None:
             self.trusted_proxy_count = 1
 
+        if self.trusted_proxy_count < 1:
+            raise ValueError("trusted_proxy_count must be 1 or greater")
+
         if self.trusted_proxy_headers and self.trusted_proxy is None:
             raise ValueError(
                 "trusted_proxy_headers has no meaning without setting " "trusted_proxy"
